@@ -410,6 +410,52 @@ def run(p: Program, rep: Report, tier: str) -> None:
                 rep.undecide("R17.7", f"{f_.fq}: `{ast.unparse(c)[:60]}` encodes with a non-default error handler")
             else:
                 rep.ok("R17.7", f"{f_.fq}: `{ast.unparse(c)[:60]}` percent-escapes as UTF-8, the codec the parser unquotes with")
+        # ... and on EVERY returning path: a path that hands out text built without the escaper (a "nothing to escape" fast path)
+        # is right only when its guard admits nothing the escaper would have changed - decided as a language inclusion of the
+        # guard's pattern in urlencode's always-safe set [A-Za-z0-9_.~-]*
+        def _escapes(e_: ast.AST) -> bool:
+            return any(isinstance(c_, ast.Call) and ast.unparse(c_.func).split(".")[-1] in ("urlencode", "quote", "quote_plus") for c_ in ast.walk(e_))
+
+        par_ = {}
+        for n_ in ast.walk(qstr.node):
+            for ch_ in ast.iter_child_nodes(n_):
+                par_[id(ch_)] = n_
+        for r_ in [n_ for n_ in walk_shallow(qstr.node) if isinstance(n_, ast.Return) and n_.value is not None]:
+            if _escapes(r_.value) or (isinstance(r_.value, ast.Call) and not isinstance(r_.value.func, ast.Attribute)) or isinstance(r_.value, ast.Name):
+                continue  # escaper in place, or a helper / local the collection above already followed
+            if isinstance(r_.value, ast.Constant):
+                continue
+            g_ = par_.get(id(r_))
+            while g_ is not None and not isinstance(g_, ast.If):
+                g_ = par_.get(id(g_))
+            pats_ = []
+            if g_ is not None:
+                for nm_ in ast.walk(g_.test):
+                    if isinstance(nm_, ast.Name) and nm_.id in qstr.module.constants:
+                        cv_ = qstr.module.constants[nm_.id]
+                        if isinstance(cv_, ast.Attribute) and cv_.attr in ("fullmatch", "match", "search") and isinstance(cv_.value, ast.Call) \
+                                and ast.unparse(cv_.value.func) in ("re.compile", "compile") and cv_.value.args and isinstance(cv_.value.args[0], ast.Constant) and isinstance(cv_.value.args[0].value, str):
+                            pats_.append((nm_.id, cv_.attr, cv_.value.args[0].value))
+            if len({x[0] for x in pats_}) != 1:
+                rep.undecide("R17.7", f"QueryParams.__str__ returns `{ast.unparse(r_.value)[:60]}` on a path that does not go through urlencode/quote, and the guard of that path is not a single compiled pattern")
+                continue
+            nm_, how_, pat_ = pats_[0]
+            if how_ != "fullmatch":
+                rep.violation("R17.7", construct(qstr, text=f"unescaped string form guarded by {nm_} = re.compile({pat_!r}).{how_}"), where(qstr, r_),
+                              f"str(QueryParams) returns unescaped text when `{nm_}` ({how_}, not fullmatch) finds a match: the rest of the key/value is not constrained at all", positive=True)
+                continue
+            from .. import rx as _rx
+            try:
+                only_guard, _o, _st = _rx.compare(pat_, r"[A-Za-z0-9_.~\-]*")
+            except Exception as ex_:
+                rep.undecide("R17.7", f"QueryParams.__str__: the guard pattern {pat_!r} of the unescaped path is not decidable ({ex_})")
+                continue
+            if only_guard is None:
+                rep.ok("R17.7", f"the unescaped fast path of __str__ is guarded by {pat_!r}, a subset of urlencode's always-safe set")
+            else:
+                rep.violation("R17.7", construct(qstr, text=f"unescaped string form guarded by re.compile({pat_!r})"), where(qstr, r_),
+                              f"str(QueryParams) returns the pairs unescaped whenever every key and value matches {pat_!r}, and that pattern admits {_rx.show(only_guard)}, which urlencode "
+                              "would have percent-escaped: a key containing '=' (or '&', '+', '%', '#') does not come back from QueryParams(str(q))", positive=True)
     rep.require_instances("R17.7", 1)
 
     # ---------------------------------------------------------------- R17.8 == compares the pair lists as multisets
